@@ -1,7 +1,7 @@
 (* Vanilla: the loop bodies translated from src/vanilla_header/{encrypt,decrypt}.rs on this run, folded
    over the slice, are enc_loop / dec_loop of the model at key length SESSION_KEY_LENGTH. *)
 From Coq Require Import List NArith Lia.
-From WS Require Import lib.Bytes lib.Res lib.StepLoop Consts Steps model.HeaderCipher model.Rc4 proofs.steps.Common.
+From WS Require Import lib.Bytes lib.Res lib.Calls lib.StepLoop Consts Steps spec.HeaderCipher model.HeaderCipher model.Vanilla proofs.HeaderCipher proofs.Vanilla proofs.steps.Common.
 Import ListNotations.
 Local Open Scope N_scope.
 
@@ -31,3 +31,48 @@ Proof.
   destruct (dec_loop _ _ _ r) as [[s' out]|]; reflexivity.
 Qed.
 
+
+(* ---- the property-level statements, about the functions translated from the source ---- *)
+Definition half_view (r : nres (half * list N)) : option ((N * N) * list N) :=
+  match r with Ok (h, out) => Some (cst_pair (h_st h), out) | _ => None end.
+
+Lemma vanilla_source_enc_run : forall chunks K s,
+  calls_loop (tr_vanilla_encrypt_step K) (cst_pair s) chunks = half_view (run_calls encrypt {| h_key := K; h_st := s |} chunks).
+Proof.
+  induction chunks as [|c r IH]; intros K s; [reflexivity|].
+  cbn [calls_loop run_calls]. rewrite vanilla_encrypt_translated. unfold encrypt at 1. cbn [h_key h_st].
+  destruct (enc_loop session_key_length K s c) as [[s' o]|]; [|reflexivity].
+  cbn [loop_view]. rewrite IH.
+  destruct (run_calls encrypt {| h_key := K; h_st := s' |} r) as [[h' o']|e|]; [reflexivity|destruct e|reflexivity].
+Qed.
+
+Lemma vanilla_source_dec_run : forall chunks K s,
+  calls_loop (tr_vanilla_decrypt_step K) (cst_pair s) chunks = half_view (run_calls decrypt {| h_key := K; h_st := s |} chunks).
+Proof.
+  induction chunks as [|c r IH]; intros K s; [reflexivity|].
+  cbn [calls_loop run_calls]. rewrite vanilla_decrypt_translated. unfold decrypt at 1. cbn [h_key h_st].
+  destruct (dec_loop session_key_length K s c) as [[s' o]|]; [|reflexivity].
+  cbn [loop_view]. rewrite IH.
+  destruct (run_calls decrypt {| h_key := K; h_st := s' |} r) as [[h' o']|e|]; [reflexivity|destruct e|reflexivity].
+Qed.
+
+Theorem vanilla_source_enc_calls : forall K chunks, length K = 40%nat ->
+  calls_loop (tr_vanilla_encrypt_step K) (0, 0) chunks =
+  Some ((N.of_nat (length (concat chunks) mod 40), last (encrypt_stream K (concat chunks)) 0),
+        encrypt_stream K (concat chunks)).
+Proof.
+  intros K chunks HK.
+  change (0, 0) with (cst_pair {| c_idx := 0; c_prev := 0 |}).
+  rewrite vanilla_source_enc_run. change {| h_key := K; h_st := {| c_idx := 0; c_prev := 0 |} |} with (half_new K).
+  rewrite (enc_calls K chunks HK). reflexivity.
+Qed.
+
+Theorem vanilla_source_dec_calls : forall K chunks, length K = 40%nat ->
+  calls_loop (tr_vanilla_decrypt_step K) (0, 0) chunks =
+  Some ((N.of_nat (length (concat chunks) mod 40), last (concat chunks) 0), decrypt_stream K (concat chunks)).
+Proof.
+  intros K chunks HK.
+  change (0, 0) with (cst_pair {| c_idx := 0; c_prev := 0 |}).
+  rewrite vanilla_source_dec_run. change {| h_key := K; h_st := {| c_idx := 0; c_prev := 0 |} |} with (half_new K).
+  rewrite (dec_calls K chunks HK). reflexivity.
+Qed.
